@@ -669,6 +669,7 @@ func (h *File) Stat() (os.FileInfo, error) {
 
 // Sync implements fs.File.
 func (h *File) Sync() error {
+	h.acc("Sync", "map", false) // uses the descriptor / mapping that Close and a remap invalidate
 	h.fs.hook("Sync", h.obj()+":sync", true, 0, 0)
 	if h.closed {
 		return os.ErrClosed
